@@ -51,8 +51,25 @@ def dm2(c):
     return rho.reshape(c, c, c, c).transpose(0, 2, 1, 3)
 
 
+def _gauss2():
+    """two-mode mixed Gaussian state with symplectic spectrum (thermal, vacuum): thermal(0.4) x vacuum through a beamsplitter
+    and a squeezer, displaced (xxpp, hbar = 2)"""
+    S = ph.embed(ph.squeeze(0.2, 0.3), [0], 2) @ ph.beamsplitter(0.6, 0.2)
+    V = S @ np.diag([1.8, 1.0, 1.8, 1.0]) @ S.T
+    return (V + V.T) / 2, np.array([0.3, -0.2, 0.1, 0.4])
+
+
+def _gauss1():
+    S = ph.squeeze(0.25, 0.5)
+    V = 1.6 * S @ S.T
+    return (V + V.T) / 2, np.array([0.2, -0.3])
+
+
 EVENTS = {
     # preparations
+    "Gauss1": (lambda c: ops.Gaussian(*_gauss1()), 1, "prep", G),
+    "Gauss2": (lambda c: ops.Gaussian(*_gauss2()), 2, "prep", G),
+    "Gauss2(native)": (lambda c: ops.Gaussian(*_gauss2(), decomp=False), 2, "prep", ("gaussian",)),
     "Vac": (lambda c: ops.Vacuum(), 1, "prep", A),
     "Coh(.3,.5)": (lambda c: ops.Coherent(0.3, 0.5), 1, "prep", A),
     "Sq(.25,.4)": (lambda c: ops.Squeezed(0.25, 0.4), 1, "prep", A),
@@ -96,11 +113,14 @@ EVENTS = {
     "Loss(0)": (lambda c: ops.LossChannel(0.0), 1, "loss", A),
     "Loss(1)": (lambda c: ops.LossChannel(1.0), 1, "loss", A),
     "TLoss(.6,.4)": (lambda c: ops.ThermalLossChannel(0.6, 0.4), 1, "channel", G),
+    # post-selected measurements (deterministic): projection on a coherent state, measured mode reset to vacuum
+    "MHet(.3-.5j)": (lambda c: ops.MeasureHeterodyne(select=0.3 - 0.5j), 1, "measure", G),
+    "MHet(0)": (lambda c: ops.MeasureHeterodyne(select=0.0), 1, "measure", G),
     "PC(.8e^.3i)": (lambda c: ops.PassiveChannel(np.array([[0.8 * np.exp(0.3j)]])), 1, "channel", ("gaussian",)),
 }
 DAGGERABLE = ["D(.3,.4)", "S(.25,.3)", "R(.7)", "K(.3)", "V(.1)", "X(.3)", "P(.3)", "BS(.5,.3)", "BS(pi/4,pi/2)", "MZ(.4,.9)", "S2(.2,.5)", "CK(.4)", "CX(.3)", "CZ(.2)"]
 # reduced alphabets for the deepest level
-CORE = ["Coh(.3,.5)", "Sq(.25,.4)", "Th(.3)", "D(.3,.4)", "S(.25,.3)", "R(.7)", "BS(.5,.3)", "BS(.5,.3).H", "MZ(.4,.9)", "MZ(.4,.9).H", "S2(.2,.5)", "S2(.2,.5).H", "Loss(.6)", "TLoss(.6,.4)", "K(.3)", "CK(.4)", "Fock(1)", "Ket2", "CX(.3)"]
+CORE = ["Coh(.3,.5)", "Sq(.25,.4)", "Th(.3)", "D(.3,.4)", "S(.25,.3)", "R(.7)", "BS(.5,.3)", "BS(.5,.3).H", "MZ(.4,.9)", "MZ(.4,.9).H", "S2(.2,.5)", "S2(.2,.5).H", "Loss(.6)", "TLoss(.6,.4)", "K(.3)", "CK(.4)", "Fock(1)", "Ket2", "CX(.3)", "MHet(.3-.5j)", "Gauss2"]
 
 
 def make_op(label, c):
@@ -217,6 +237,8 @@ def apply_ref(ref, kind, op, modes, obs=None, n=None, c=None):
                 if not oracle_c01(kind, n, c, cand, obs):
                     return cand
         return cands[0]
+    if isinstance(op, ops.MeasureHeterodyne):
+        return ref.copy().condition_heterodyne(modes[0], complex(op.select))
     return opsem.apply_gaussian(op, list(modes), ref.copy())
 
 
@@ -303,6 +325,23 @@ def oracle_c05(kind, n, c, label, op, modes, before, after):
             d = _maxabs(after.rho - exp)
             if d > 1e-9:
                 out.append(("prep-product", f"state after preparation differs from documented state by {d:.3g}"))
+    elif okind == "measure":
+        # differential on implementation data: the conditional update that the selected outcome implies
+        exp = ph.GState(n, np.array(before.mu, dtype=float), np.array(before.V, dtype=float)).condition_heterodyne(modes[0], complex(op.select))
+        ix = ph.idx(modes, n)
+        d = max(_maxabs(after.mu[ix]), _maxabs(after.V[np.ix_(ix, ix)] - np.eye(2)))
+        if d > TOL:
+            out.append(("measured-mode-not-vacuum", f"measured mode differs from vacuum by {d:.3g}"))
+        if rest:
+            rx = ph.idx(rest, n)
+            d = _maxabs(after.V[np.ix_(ix, rx)])
+            if d > 1e-10:
+                out.append(("measured-mode-correlated", f"measured mode remains correlated with the rest ({d:.3g})"))
+            d1, d2 = _maxabs(after.mu[rx] - exp.mu[rx]), _maxabs(after.V[np.ix_(rx, rx)] - exp.V[np.ix_(rx, rx)])
+            if d1 > TOL * max(1.0, _maxabs(exp.mu)):
+                out.append(("conditional-mean", f"means of the unmeasured modes differ from the conditional update for the selected outcome by {d1:.3g}"))
+            if d2 > TOL * max(1.0, _maxabs(exp.V)):
+                out.append(("conditional-cov", f"covariance of the unmeasured modes differs from the conditional update by {d2:.3g}"))
     else:
         if rest:
             mb, Vb = _red_gauss(before.mu, before.V, rest, n)
